@@ -92,13 +92,20 @@ func (cx *Ctx) buildFuncUnit(fn *ssa.Function, fc *FuncContract) (u *Unit, err e
 	bindResults(penv, fn.Signature, res)
 	for i, c := range fc.Ensures {
 		t := penv.trBool(c.E)
-		o := u.oblige(out, "post", fmt.Sprintf("%s/post:%s", fr.fnLabel(), clauseName(c, i)), t, fn.Pos(), c, "postcondition: "+c.Src)
+		id := fmt.Sprintf("%s/post:%s", fr.fnLabel(), clauseName(c, i))
 		if c.Region != nil {
+			// known-finding scoping: the clause must discharge outside the region; inside it is expected to fail
 			renv := fr.specEnv(out, fr.entry)
 			renv.fr = nil
 			bindResults(renv, fn.Signature, res)
-			o.Extra = []string{renv.trBool(c.Region)}
+			reg := renv.trBool(c.Region)
+			o := u.oblige(out, "post", id, t, fn.Pos(), c, "postcondition (outside finding region): "+c.Src)
+			o.Extra = []string{not(reg)}
+			o2 := u.oblige(out, "post", id+"@finding", t, fn.Pos(), c, "postcondition (inside finding region): "+c.Src)
+			o2.Extra = []string{reg}
+			continue
 		}
+		u.oblige(out, "post", id, t, fn.Pos(), c, "postcondition: "+c.Src)
 	}
 	if fc.HasAssigns {
 		fr.frameObligations(st, out, fc)
